@@ -1366,7 +1366,7 @@ package apd
 //@ define fits(c: *Context, d: *Decimal): bool = d.Form == Finite ==> (val(d.Coeff) >= 0 && val(d.Coeff) < pow10(c.Precision) && d.Exponent + nd10(val(d.Coeff)) - 1 <= c.MaxExponent && (val(d.Coeff) != 0 ==> d.Exponent >= etiny(c)))
 
 //@ func (*Decimal).String
-//@   trusted text only: builds a string from the fields of d (format.go is outside the subset)
+//@   trusted the frame only (d.Text('G') below is verified for panics; its byte buffers live in fresh memory, which the loop model cannot show)
 //@   pure
 
 //@ func (*Decimal).Float64
@@ -2106,3 +2106,25 @@ package apd
 //@   props C04
 //@   exported
 //@   ensures [wf] ret2 == nil ==> ret0 != nil && inv(ret0)
+// ---------------------------------------------------------------- formatting: no panic (C04); the text itself is C13/C14
+//@ func (*BigInt).Append
+//@   trusted math/big's formatter: appends at least one digit
+//@   pure
+//@   allocates
+//@   ensures len(ret) >= len(buf) + 1
+//@ func (*Decimal).Append
+//@   props C04
+//@   exported
+//@   requires inv(d)
+//@ func fmtE
+//@   props C04
+//@   requires inv(d) && len(digits) >= 1
+//@   pure
+//@   allocates
+//@ func fmtF
+//@   props C04
+//@   requires inv(d) && len(digits) >= 1
+//@ func (*Decimal).Text
+//@   props C04
+//@   exported
+//@   requires inv(d)
